@@ -244,6 +244,8 @@ class Program:
         for m in self.modules.values():
             self._index_imports(m)
         for m in self.modules.values():
+            self._unqualify_module_access(m)
+        for m in self.modules.values():
             self._index_defs(m)
         self.wrapper_decorators = {}
         self._apply_wrappers()
@@ -295,6 +297,69 @@ class Program:
                         m.imports[local] = ("pkg", a.name, None)
                     else:
                         m.imports[local] = ("ext", a.name if a.asname else a.name.split(".")[0])
+
+    def _unqualify_module_access(self, m):
+        """`from trie.utils import nodes as n; n.get_node_type(x)` is `from trie.utils.nodes import get_node_type;
+        get_node_type(x)`: attribute access through an alias of a package module becomes the bare name, which is
+        entered in the module's import table (unless the bare name already means something else there)."""
+        aliases = {}
+        for local, imp in m.imports.items():
+            if imp[0] != "pkg":
+                continue
+            _, src, sym = imp
+            target = src if sym is None else "%s.%s" % (src, sym)
+            if target in self.modules and target != m.name:
+                aliases[local] = target
+        if not aliases and not any(i[0] == "pkg" and i[2] is None for i in m.imports.values()):
+            return
+        taken = set(m.imports) | {n.name for n in m.tree.body if isinstance(n, (ast.FunctionDef, ast.ClassDef))}
+        for n in m.tree.body:
+            if isinstance(n, ast.Assign):
+                taken |= {t.id for t in n.targets if isinstance(t, ast.Name)}
+        prog = self
+        added = {}
+
+        class T(ast.NodeTransformer):
+            def visit_Attribute(self, n):
+                self.generic_visit(n)
+                tgt = None
+                if isinstance(n.value, ast.Name) and n.value.id in aliases:
+                    tgt = aliases[n.value.id]
+                elif isinstance(n.value, ast.Attribute):
+                    # `import trie.constants` ... `trie.constants.BLANK_NODE`
+                    parts, v = [], n.value
+                    while isinstance(v, ast.Attribute):
+                        parts.append(v.attr)
+                        v = v.value
+                    if isinstance(v, ast.Name):
+                        base = aliases.get(v.id)
+                        imp_ = m.imports.get(v.id)
+                        if imp_ is not None and imp_[0] == "pkg" and imp_[2] is None and (imp_[1] == v.id or imp_[1].startswith(v.id + ".")):
+                            base = v.id  # `import trie.constants` binds the top-level package name
+                        if base:
+                            cand = ".".join([base] + list(reversed(parts)))
+                            if cand in prog.modules:
+                                tgt = cand
+                if tgt is not None and isinstance(n.ctx, ast.Load):
+                    name = n.attr
+                    if (name in taken and added.get(name) != tgt) or name in aliases:
+                        return n
+                    # only names the target module really defines / imports
+                    tm = prog.modules[tgt]
+                    defined = {x.name for x in tm.tree.body if isinstance(x, (ast.FunctionDef, ast.ClassDef))} | set(tm.imports)
+                    for x in tm.tree.body:
+                        if isinstance(x, ast.Assign):
+                            defined |= {t.id for t in x.targets if isinstance(t, ast.Name)}
+                        elif isinstance(x, ast.AnnAssign) and isinstance(x.target, ast.Name):
+                            defined.add(x.target.id)
+                    if name not in defined:
+                        return n
+                    added[name] = tgt
+                    return ast.copy_location(ast.Name(id=name, ctx=ast.Load()), n)
+                return n
+        T().visit(m.tree)
+        for name, tgt in added.items():
+            m.imports[name] = ("pkg", tgt, name)
 
     def _index_defs(self, m):
         for node in m.tree.body:
